@@ -108,39 +108,7 @@ func c07(c *ctx) {
 		}
 		c07Teid(c, "teid/random", cur, used, ops, args)
 	}
-	// concurrent allocation: ids must be pairwise distinct and non-zero
-	for run := 0; run < c.pick(3, 40); run++ {
-		g := pfcpiface.NewFTEIDGenerator()
-		g.VerifSetState(M-50, nil)
-		G, per := 32, 20
-		res := make([]uint32, G*per)
-		var wg sync.WaitGroup
-		for k := 0; k < G; k++ {
-			wg.Add(1)
-			go func(k int) {
-				defer wg.Done()
-				for j := 0; j < per; j++ {
-					id, err := g.Allocate()
-					if err != nil {
-						id = 0
-					}
-					res[k*per+j] = id
-					if j%3 == 2 { // release and re-allocate under contention
-						g.FreeID(id)
-						id2, _ := g.Allocate()
-						res[k*per+j] = id2
-					}
-				}
-			}(k)
-		}
-		wg.Wait()
-		sort.Slice(res, func(i, j int) bool { return res[i] < res[j] })
-		var sb strings.Builder
-		for _, r := range res {
-			fmt.Fprintf(&sb, " %d", r)
-		}
-		c.t.Case("teid/concurrent", true, "tconc %d%s", len(res), sb.String())
-	}
+	c07conc(c)
 	// SEIDs: scripted random sources
 	type sc struct {
 		name  string
@@ -230,6 +198,16 @@ func c07system(c *ctx) {
 				chosen = cr[2].(uint32)
 			}
 		}
+		if r.Intn(3) == 0 {
+			// a modification refused AFTER its Remove PDR step took the CHOOSE PDR out of the handler's copy: nothing is
+			// committed, so the TEID stays in use
+			var ids []uint32
+			for _, p := range pdrs {
+				ids = append(ids, uint32(p.ID))
+			}
+			w.mod(0, a.up, modReq{rp: ids, rq: []uint32{999}}, "c07-remove-choose-pdr-then-refused")
+			w.stats("c07")
+		}
 		// another session (often of another association) whose control plane picked the same number, under another address
 		p2, f2, q2 := w.genSession(0)
 		p2[0].Teid = u32p3(0, chosen, n3IP+8+uint32(r.Intn(4)))
@@ -244,5 +222,43 @@ func c07system(c *ctx) {
 			w.del(0, a.up, "c07")
 			w.stats("c07")
 		}
+	}
+}
+
+// c07conc: the TEID allocator under concurrent callers (also run by C11: it is shared by all associations).
+func c07conc(c *ctx) {
+	M := uint32(teidM)
+	// concurrent allocation: ids must be pairwise distinct and non-zero
+	for run := 0; run < c.pick(3, 40); run++ {
+		g := pfcpiface.NewFTEIDGenerator()
+		g.VerifSetState(M-50, nil)
+		G, per := 32, 20
+		res := make([]uint32, G*per)
+		var wg sync.WaitGroup
+		for k := 0; k < G; k++ {
+			wg.Add(1)
+			go func(k int) {
+				defer wg.Done()
+				for j := 0; j < per; j++ {
+					id, err := g.Allocate()
+					if err != nil {
+						id = 0
+					}
+					res[k*per+j] = id
+					if j%3 == 2 { // release and re-allocate under contention
+						g.FreeID(id)
+						id2, _ := g.Allocate()
+						res[k*per+j] = id2
+					}
+				}
+			}(k)
+		}
+		wg.Wait()
+		sort.Slice(res, func(i, j int) bool { return res[i] < res[j] })
+		var sb strings.Builder
+		for _, r := range res {
+			fmt.Fprintf(&sb, " %d", r)
+		}
+		c.t.Case("teid/concurrent", true, "tconc %d%s", len(res), sb.String())
 	}
 }
